@@ -13,6 +13,18 @@ def _elem_shape(a):
     return np.asarray(a, dtype=object).shape[:-1]
 
 
+ANTISYMMETRIC = {"fv"}  # K(r2, r1) = -K(r1, r2): discharged on the real kernel in C05 (kernel lemmas)
+
+
+def _swap(name, fargs):
+    """canonical argument order for antisymmetric kernels: (a, b) with key(a) <= key(b)"""
+    if name not in ANTISYMMETRIC:
+        return False
+    ka = tuple(x.fp for x in fargs[:3])
+    kb = tuple(x.fp for x in fargs[3:])
+    return kb < ka
+
+
 def _apply(name, arrs):
     """arrs: list of arrays (..., 3) broadcast-compatible; returns object array (..., 3)."""
     arrs = np.broadcast_arrays(*[np.asarray(a, dtype=object) for a in arrs])
@@ -20,8 +32,12 @@ def _apply(name, arrs):
     out = np.empty(shp + (3,), dtype=object)
     for idx in np.ndindex(*shp):
         fargs = [S(a[idx + (k,)]) for a in arrs for k in range(3)]
+        sw = _swap(name, fargs)
+        if sw:
+            fargs = fargs[3:] + fargs[:3]
         for i in range(3):
-            out[idx + (i,)] = ufn(name, (i,), fargs)
+            u = ufn(name, (i,), fargs)
+            out[idx + (i,)] = _s.neg(u) if sw else u
     return out
 
 
@@ -34,6 +50,11 @@ def _apply_deriv(name, arrs, which, deriv):
     out = np.empty(shp + (3, 3), dtype=object)
     for idx in np.ndindex(*shp):
         fargs = [S(a[idx + (k,)]) for a in arrs for k in range(3)]
+        sw = _swap(name, fargs)
+        w = which
+        if sw:
+            fargs = fargs[3:] + fargs[:3]
+            w = 1 - which
         for i in range(3):
             for j in range(3):
                 acc = ZERO
@@ -41,8 +62,8 @@ def _apply_deriv(name, arrs, which, deriv):
                     dv = S(deriv[idx + (c, j)])
                     if dv is ZERO:
                         continue
-                    acc = add(acc, mul(ufn(name + "'", (i, 3 * which + c), fargs), dv))
-                out[idx + (i, j)] = acc
+                    acc = add(acc, mul(ufn(name + "'", (i, 3 * w + c), fargs), dv))
+                out[idx + (i, j)] = _s.neg(acc) if sw else acc
     return out
 
 
